@@ -257,19 +257,12 @@ theorem decode_stream (w h : Nat) (d c : UInt8) (ch : Nat) (bs : List (List UInt
   have e1 : (ihdrData w h d c).take 4 = be32 w := rfl
   have e2 : ((ihdrData w h d c).drop 4).take 4 = be32 h := rfl
   have e3 : (ihdrData w h d c).drop 8 = [d, pngFileFormatEncoding c, 0, 0, 0] := rfl
-  have c1 : ¬ (tIHDR ≠ tIHDR ∨ (ihdrData w h d c).length ≠ 13) := by simp [length_ihdrData]
   simp only [e1, e2, e3, readBE32_be32 w (by omega), readBE32_be32 h (by omega)]
   have c2 : ¬ (w = 0 ∨ h = 0 ∨ w ≥ 2 ^ 31 ∨ h ≥ 2 ^ 31) := by omega
-  have c3 : ¬ ((0 : UInt8) ≠ 0 ∨ (0 : UInt8) ≠ 0 ∨ (0 : UInt8) ≠ 0) := by decide
   have c4 : ¬ (d ≠ 8 ∧ d ≠ 16) := by rcases hd with h | h <;> simp [h]
   simp only [c2, c4, ↓reduceIte, hch]
   obtain ⟨t1, t2⟩ := takeWhile_idats (payloads bs pend (Adler.init.update (bs.flatten ++ pend)))
   rw [t1, t2]
-  have c5 : ¬ ((List.map (fun p => ({ typ := tIDAT, data := p } : Chunk))
-      (payloads bs pend (Adler.init.update (bs.flatten ++ pend)))).isEmpty = true ∨
-      ([{ typ := tIEND, data := [] }] : List Chunk) ≠ [{ typ := tIEND, data := [] }]) := by
-    have := payloads_ne_nil bs pend (Adler.init.update (bs.flatten ++ pend))
-    simp [this]
   have hdata : (List.map (fun p => ({ typ := tIDAT, data := p } : Chunk))
       (payloads bs pend (Adler.init.update (bs.flatten ++ pend)))).flatMap (·.data)
       = (payloads bs pend (Adler.init.update (bs.flatten ++ pend))).flatten := by
